@@ -2,6 +2,7 @@ import DriverLib.Util
 -- BEGIN-GENERATED-IMPORTS
 import DriverLib.C01
 import DriverLib.C02
+import DriverLib.C03
 import DriverLib.C04
 import DriverLib.C05
 import DriverLib.C06
@@ -24,6 +25,7 @@ def handlers : List (String → Json → Option R) := [
 -- BEGIN-GENERATED-HANDLERS
   Drv.C01.handle,
   Drv.C02.handle,
+  Drv.C03.handle,
   Drv.C04.handle,
   Drv.C05.handle,
   Drv.C06.handle,
